@@ -111,10 +111,10 @@ PLANS['C19'] = dict(level='exploration',
     rule="each case runs the ...A function and, on the widened input, the ...W function back to back and compares return codes, error offsets, component offsets, host kinds and bytes, flags, recomposed text, chars-required/written, mask-required, resolve / create-reference / normalise / make-owner / equals results, escape / unescape offsets and text, query dissect / compose (counts, sizes, text), the four filename functions and uriParseIpFourAddress; wide buffers are exact-size in characters; distinct = distinct inputs",
     assumptions=A_MODELS + A_MEM)
 PLANS['C20'] = dict(level='exploration',
-    runs=[R('threads', 'tsan', dict(rounds=16, iters=20000, _workers=4), dict(rounds=64, iters=40000, _workers=2), dict(overlapping_call_pairs_on_shared_object=1000)),
-          R('threads', 'so', dict(rounds=16, iters=40000, _workers=4), dict(rounds=64, iters=80000, _workers=2), dict(overlapping_call_pairs_on_shared_object=1000, library_writable_bytes_protected=1)),
+    runs=[R('threads', 'tsan', dict(rounds=32, iters=20000, _workers=4), dict(rounds=128, iters=40000, _workers=4), dict(overlapping_call_pairs_on_shared_object=1000)),
+          R('threads', 'so', dict(rounds=32, iters=40000, _workers=4), dict(rounds=128, iters=80000, _workers=4), dict(overlapping_call_pairs_on_shared_object=1000, library_writable_bytes_protected=1, shared_input_bytes_read_only=1)),
           R('statics', 'so', dict(_workers=1), dict(_workers=1), dict(library_writable_bytes_protected=1, api_tour_calls=30))],
-    rule="rounds with T in {2,4,8,16} threads, each making a random mix of all public calls on private outputs and shared read-only inputs (24 URIs borrowed/owned, query lists, strings), per-thread recording managers with injected yields/sleeps and the default allocator, staggered starts and shuffled CPU affinity; ThreadSanitizer build; results compared with single-thread results; shared inputs deep-compared; in the shared-object build the library's writable segments are write-protected during the workload; the overlap matrix of call pairs observed on the same shared object is recorded; distinct = rounds and overlap counts",
+    rule="rounds with T in {2,4,8,16} threads, each making a random mix of all public calls on private outputs and shared read-only inputs (24 URIs borrowed/owned, query lists, strings), per-thread recording managers with injected yields/sleeps and the default allocator, staggered starts and shuffled CPU affinity; ThreadSanitizer build; results compared with single-thread results; shared inputs (URI structs, segment nodes, address blocks, texts, strings, query lists) live in one PROT_READ arena while the threads run, so any store into them faults whatever the schedule, and are deep-compared afterwards; in the shared-object build the library's writable segments are write-protected during the workload; the overlap matrix of call pairs observed on the same shared object is recorded; distinct = rounds and overlap counts",
     assumptions=["ThreadSanitizer reports races only on the interleavings that occurred; the schedule-independent part is the write protection of the library's .data/.bss and the comparison of shared inputs",
                  "the statement 'holds no writable global or static data' is decided as 'no store to library-owned static storage under write protection across a tour of the whole public API plus the threaded workload'; the symbol inventory (objdump) is reported"])
 
